@@ -348,6 +348,8 @@ def classify(effects):
                 continue
             if st.kind == "noeffect":
                 out.append(Eff("noeffect", None, st, args, fa, raw=q, how=k))
+            elif st.kind == "ddl":
+                out.append(Eff("ddl", str(st.node.children[0]), st, args, fa, raw=q, how=k))
             elif st.kind == "insert":
                 t, conflict, cols, exprs = insert_info(st.node)
                 out.append(Eff("insert", t, st, args, fa, raw=q, how=k))
@@ -390,24 +392,55 @@ def veq(v, x):
     return Q._term(v) == Q._term(w)
 
 
+def _affinity(decl):
+    """column affinity of a declared type (SQLite rules, https://sqlite.org/datatype3.html 3.1)"""
+    d = (decl or "").upper()
+    if "INT" in d:
+        return "int"
+    if "CHAR" in d or "CLOB" in d or "TEXT" in d:
+        return "text"
+    if "BLOB" in d or d == "":
+        return "blob"
+    if "REAL" in d or "FLOA" in d or "DOUB" in d:
+        return "real"
+    return "numeric"
+
+
 def schema_tables():
-    """{table: ([(column, declaration text)], [primary key columns])} read from the real constants.SCHEMA"""
+    """{table: ([(column, affinity)], [primary key columns], extras)} of the database that the real constants.SCHEMA creates,
+    read back from sqlite itself (PRAGMA table_info / index_list and the stored DDL), so that equivalent spellings of the
+    DDL (keyword case, int / integer, an inline primary key on a text column) are the same schema.  extras lists what would
+    make a column more than a plain store of what it is given: NOT NULL, DEFAULT, COLLATE, CHECK, UNIQUE, GENERATED,
+    REFERENCES, an INTEGER PRIMARY KEY (rowid alias), WITHOUT ROWID."""
     import re
-    out = {}
-    for m in re.finditer(r"CREATE TABLE (\w+)\s*\((.*?)\);", constants.SCHEMA, re.S | re.I):
-        cols, pk = [], []
-        for part in re.split(r",(?![^()]*\))", m.group(2)):
-            part = " ".join(part.split())
-            if not part:
-                continue
-            k = re.match(r"(?i)primary key\s*\(([^)]*)\)$", part)
-            if k:
-                pk = [c.strip() for c in k.group(1).split(",")]
-            else:
-                name, _, decl = part.partition(" ")
-                cols.append((name, decl.strip()))
-        out[m.group(1)] = (cols, pk)
-    return out
+    import sqlite3 as _sq
+    conn = _sq.connect(":memory:")
+    try:
+        conn.executescript(constants.SCHEMA)
+        out = {}
+        for (name, sql) in conn.execute("SELECT name, sql FROM sqlite_master WHERE type = 'table'").fetchall():
+            info = conn.execute("PRAGMA table_info(%s)" % name).fetchall()
+            cols = [(r[1], _affinity(r[2])) for r in info]
+            pk = [r[1] for r in sorted((r for r in info if r[5]), key=lambda r: r[5])]
+            extras = []
+            for r in info:
+                if r[3]:
+                    extras.append("NOT NULL on %s" % r[1])
+                if r[4] is not None:
+                    extras.append("DEFAULT on %s" % r[1])
+            if len(pk) == 1 and dict(cols)[pk[0]] == "int":
+                extras.append("INTEGER PRIMARY KEY (rowid alias) %s" % pk[0])
+            for r in conn.execute("PRAGMA index_list(%s)" % name).fetchall():
+                if r[3] != "pk":
+                    extras.append("index %s (origin %s)" % (r[1], r[3]))
+            body = re.sub(r"\s+", " ", sql or "")
+            for kw in ("COLLATE", "CHECK", "UNIQUE", "GENERATED", "REFERENCES", "WITHOUT ROWID", "AUTOINCREMENT", " AS ("):
+                if re.search(r"(?i)(?<![A-Za-z_])%s(?![A-Za-z_])" % re.escape(kw.strip()), body):
+                    extras.append("%s in the DDL" % kw.strip())
+            out[name] = (cols, pk, extras)
+        return out
+    finally:
+        conn.close()
 
 
 EXPECTED_SCHEMA = {
@@ -428,7 +461,7 @@ def prove_plain_schema(U, prefix, tables):
     for t in tables:
         have = got.get(t)
         want = EXPECTED_SCHEMA[t]
-        ok = have is not None and [(n, d.lower()) for n, d in have[0]] == want[0] and have[1] == want[1]
+        ok = have is not None and list(have[0]) == want[0] and sorted(have[1]) == sorted(want[1]) and not have[2]
 
         def replay(m, t=t):
             import sqlite3
@@ -448,18 +481,14 @@ def prove_plain_schema(U, prefix, tables):
             exp = ["stored 'Abc1'", "stored 'ABC1'", "stored 'abc1 '"]
             return {"inputs": {"table": t, "column": textcol, "values": ["Abc1", "ABC1", "abc1 "], "then": "count WHERE %s = 'abc1'" % textcol}, "expected": [exp, 0],
                     "observed": [obs, n], "violates": obs != exp or n != 0}
-        U.prove("%s.schema.plain[%s]" % (prefix, t), "table %s: columns %s declared plain text/int (no COLLATE, DEFAULT, CHECK, UNIQUE), primary key %r - text is compared exactly" % (t, [n for n, _ in want[0]], want[1]),
+        U.prove("%s.schema.plain[%s]" % (prefix, t), "table %s: columns %s of plain text / integer affinity (no COLLATE, NOT NULL, DEFAULT, CHECK, UNIQUE, generated or rowid-alias column), primary key %r - text is compared exactly [read back from sqlite after running the real SCHEMA]" % (t, [n for n, _ in want[0]], want[1]),
                 [], z3.BoolVal(bool(ok)), {}, replay=replay)
 
 
 def primary_key(table):
-    """PRIMARY KEY columns of a table, read from the real constants.SCHEMA"""
-    import re
-    m = re.search(r"CREATE TABLE %s \((.*?)\);" % table, constants.SCHEMA, re.S | re.I)
-    if not m:
-        return None
-    pk = re.search(r"primary key \(([^)]*)\)", m.group(1), re.I)
-    return [c.strip() for c in pk.group(1).split(",")] if pk else []
+    """PRIMARY KEY columns of a table of the real constants.SCHEMA (as sqlite reports them)"""
+    t = schema_tables().get(table)
+    return None if t is None else list(t[1])
 
 
 # ------------------------------------------------------------------------------------------
